@@ -180,7 +180,8 @@ class BindSim:
                     if rng.random() < 0.6:
                         ops.append({'op': 'detect', 'ds': rng.randrange(n_ds)})
             lifetimes_.append({'env': env, 'ops': ops})
-        return {'engine': self.name, 'datasets': datasets, 'lifetimes': lifetimes_}
+        from sim import seams
+        return {'engine': self.name, 'datasets': datasets, 'lifetimes': lifetimes_, 'penv': seams.gen_process_env(rng)}
 
     def shrink(self, plan):
         if len(plan['lifetimes']) > 1:
@@ -224,7 +225,7 @@ class BindSim:
         sig = []
         did_access = did_detect = False
         for li, lt in enumerate(plan['lifetimes']):
-            res = lifetimes.run_lifetime(_bind_lifetime, plan['datasets'], lt)
+            res = lifetimes.run_lifetime(_bind_lifetime, plan['datasets'], lt, plan.get('penv'))
             if res['status'] != 'exit':
                 out.harness_error = f'lifetime {li}: status {res["status"]}: {res["error"]}'
                 return
@@ -306,8 +307,12 @@ def _build_dataset(desc):
     return ds
 
 
-def _bind_lifetime(ctx, dataset_descs, lt):
+def _bind_lifetime(ctx, dataset_descs, lt, penv=None):
     import importlib
+    import tempfile
+
+    from sim import seams
+    seams.apply_process_env(dict(penv or {}, tmpdir_other_fs=False), ctx, tempfile.gettempdir())
 
     import emsarray
     from emsarray.conventions import _registry
